@@ -32,6 +32,7 @@ TRUSTED_EXTRA = ['labelling of kernel steps of the sender from taps and public s
                  'element; the frame of packet_arrived - append, sort, loop, assignment - is checked structurally and given its meaning by '
                  'GenSink.genMerge); bridge theorems C16.sink_merge_generated_eq_model, C16.sink_put_generated_eq_model']
 BRIDGES = ['C16.sink_merge_generated_eq_model', 'C16.sink_put_generated_eq_model']
+EXTRA_MODULES = ('OnlVerif.Props.C16K',)
 _PREP = {}
 MSS = 512
 LOOP_STEP_BUDGET = 60000      # kernel steps per closed loop (the longest sound loop of the generators needs a few thousand)
@@ -403,7 +404,233 @@ def clean(case):
     return out
 
 
+
+# ---- BEGIN sndk leg: the TCP sender as processes on the kernel MODEL (lean/OnlVerif/Tcp/SenderOnK.lean, driver mode `sndk`) ----
+ASSUMPTIONS.append('the sender process on the real kernel refines the sender LTS: checked by replay (labels from taps and public snapshots); for the '
+                   'sender written as processes on the kernel MODEL (run, put, timeout_callback, resend_packet, one Timer process per segment, a '
+                   'network-script process) it is a theorem (Props/C16K.lean: every kernel step is an accepted LTS action sequence, no step crashes; '
+                   'finite flow size = n*mss, Reno or CUBIC, ACKs not stamped in the future), and that program is compared bit for bit with the '
+                   'real TCPPacketGenerator under ACK scripts (sndk leg)')
+
+
+def run_sndk(ctx, res=None):
+    """Extra leg for Props/C16K.lean: the K program of the TCP sender (run / put / timeout_callback / resend_packet, one Timer
+    process per segment, a network-script process delivering ACKs into put), run at Float by the compiled driver, against the
+    real TCPPacketGenerator with a real script process on the real kernel under env.run(until=T) (public API only: a recording
+    `out`, public attributes), compared line for line: how run() ended, every transmission (seq, env.now bits), the final
+    attributes, timers, in-flight table, wake-up tokens.  Scripts: the ACK deliveries recorded from a real closed loop
+    (sender + sink + lossy delaying paths), replayed open-loop and perturbed (extra duplicates, stale and premature ACK numbers,
+    foreign packet ids, swaps, truncation), plus purely random ACK lists.  Oracle (C16 'never raises', C17 'send_in_window',
+    restated over the implementation's own observations): the run raises nothing; every first transmission of a segment is
+    MSS-sized, consecutive, and was sent with next_seq + mss <= min(send_buffer, last_ack + cwnd); cwnd >= mss at the end.
+    Called twice from run(): without `res` it answers whether ctx.replay is a replay of this leg (then only this leg runs);
+    with the result dict of the main leg it appends its coverage / disagreements / failures."""
+    from vlib.util import bits
+
+    def replay_cases():
+        cs = load_replay(ctx.replay)
+        return [c for c in cs if isinstance(c, dict) and c.get('kind') == 'sndk']
+
+    if res is None:
+        if not (ctx.replay and replay_cases()):
+            return None
+        res = {'coverage': {'evaluations': 0, 'distinct_nontrivial': 0, 'rule': 'replay of an sndk case', 'samples': []},
+               'disagreements': [], 'oracle_failures': []}
+        run_sndk(ctx, res)
+        k = res['coverage']['sender_on_kernel_model']
+        res['coverage'].update(evaluations=k['evaluations'], distinct_nontrivial=k['distinct_nontrivial'], samples=[k['sample']])
+        return res
+
+    def cc_of(c):
+        return make_cc(c['cc'], mss=c['mss'], cwnd=c['cwnd0'], ssthresh=c['ssthresh0'])
+
+    def record_loop(rng, c):
+        """the ACK deliveries (instant, flow id, ackno, packet id, stamp) of a real closed loop with the case's sender"""
+        env = Environment()
+        late = Late()
+        with quiet():
+            sink = TCPSink(env)
+        got = []
+
+        class Tap:
+            def put(self, a):
+                got.append((env.now, a.flow_id, a.ack, a.packet_id, a.time))
+                late.target.put(a)
+        span = c['nseg'] + 10
+        ndrop = rng.choice([0, 0, 1, 1, 2, 3])
+        sink.out = Path(env, Tap(), c['adelays'], sorted(rng.sample(range(span), ndrop)) if rng.random() < 0.5 else [])
+        datapath = Path(env, sink, c['ddelays'], sorted(rng.sample(range(span), ndrop)))
+        flow = tcpsim.Flow(flow_id=0, src='s', dst='d', finish_time=tcpsim.INF, size=c['nseg'] * c['mss'])
+        with quiet():
+            snd = tcpsim.TCPPacketGenerator(env, flow, cc_of(c), rtt_estimate=c['rtt'])
+        snd.out = datapath
+        late.target = snd
+        n = 0
+        try:
+            with quiet():
+                while env.peek() != tcpsim.INF and n < 4000:
+                    env.step()
+                    n += 1
+        except Exception:      # noqa - the main leg judges closed loops; here the loop only supplies a script
+            pass
+        return got
+
+    def gen(rng, cid):
+        kind = rng.choice(['reno', 'reno', 'cubic'])
+        mss = 512 if kind == 'cubic' else rng.choice([512, 512, 512, 100, 1000, 1460])
+        nseg = rng.choice([1, 2, 3, 3, 4, 5, 6, 8, 12, rng.randint(1, 24)])
+        c = {'cid': f'k{cid}', 'kind': 'sndk', 'cc': kind, 'mss': mss, 'nseg': nseg,
+             'cwnd0': mss * (1 if kind == 'cubic' else rng.choice([1, 1, 1, 2, 4, 10])),
+             'ssthresh0': 65535 if kind == 'cubic' else rng.choice([65535, 65535, 2 * mss, 4 * mss, 1024, 3000]),
+             'rtt': rng.choice([1.0, 1.0, 0.2, 0.05, 3.0, round(rng.uniform(0.01, 4.0), 3)])}
+        base = rng.choice([0.001, 0.01, 0.1, 0.1, 0.4, 1.2])
+        c['ddelays'] = [round(base * rng.uniform(0.5, 2.0), 4) for _ in range(rng.choice([1, 2, 3]))]
+        c['adelays'] = [round(base * rng.uniform(0.5, 2.0), 4) for _ in range(rng.choice([1, 2, 3]))]
+        shape = rng.choice(['loop', 'loop', 'loop', 'perturbed', 'perturbed', 'random'])
+        acks = []
+        if shape != 'random':
+            prev = 0.0
+            for t, fid, ackno, pid, st in record_loop(rng, c):
+                acks.append([t - prev, fid, ackno, pid, st])
+                prev = t
+        if shape == 'random' or not acks:
+            t = 0.0
+            for _ in range(rng.randint(0, 3 * nseg + 4)):
+                gap = rng.choice([0.0, 0.0, base, 2 * base, round(rng.uniform(0, 4 * base), 4), c['rtt'], 2 * c['rtt']])
+                t += gap
+                k = rng.randint(0, nseg + 1)
+                acks.append([gap, 10000, k * mss if rng.random() < 0.9 else rng.randint(0, (nseg + 1) * mss),
+                             rng.randint(0, nseg) * mss, max(0.0, t - rng.choice([base, 2 * base, 0.0, t]))])
+        if shape == 'perturbed':
+            for _ in range(rng.randint(1, 4)):
+                if not acks:
+                    break
+                i = rng.randrange(len(acks))
+                op = rng.choice(['dup', 'dup3', 'stale', 'ahead', 'pid', 'swap', 'cut', 'zero'])
+                if op == 'dup':
+                    acks.insert(i, list(acks[i]))
+                elif op == 'dup3':
+                    acks[i:i] = [[0.0] + acks[i][1:] for _ in range(3)]
+                elif op == 'stale':
+                    acks.insert(i, [acks[i][0], 10000, rng.randint(0, max(0, acks[i][2] // mss)) * mss, acks[i][3], acks[i][4]])
+                elif op == 'ahead':
+                    acks[i][2] += mss * rng.randint(1, 3)
+                elif op == 'pid':
+                    acks[i][3] = rng.randint(0, nseg + 2) * mss
+                elif op == 'swap' and i + 1 < len(acks):
+                    acks[i][2:], acks[i + 1][2:] = acks[i + 1][2:], acks[i][2:]
+                elif op == 'cut':
+                    del acks[i:]
+                elif op == 'zero':
+                    acks[i][0] = 0.0
+        c['acks'] = acks
+        end = sum(a[0] for a in acks)
+        c['until'] = end + rng.choice([0.5, 5.0, 40.0, 40.0, 300.0]) * max(c['rtt'], 0.1)
+        return c
+
+    def text(c):
+        cc = cc_of(c)
+        return ([f"CASE {c['cid']} {c['cc']} {c['mss']} {c['nseg'] * c['mss']} {bits(c['rtt'])} {bits(c['until'])} 60000",
+                 'CC ' + ' '.join(tcpsim.fb(getattr(cc, f, 0)) for f in tcpsim.CC_LINE_FIELDS)]
+                + [f'ack {bits(g)} {fid} {ackno} {pid} {bits(st)}' for g, fid, ackno, pid, st in c['acks']] + ['END'])
+
+    def impl(c):
+        env = Environment()
+        flow = tcpsim.Flow(flow_id=0, src='s', dst='d', finish_time=tcpsim.INF, size=c['nseg'] * c['mss'])
+        cc = cc_of(c)
+        with quiet():
+            snd = tcpsim.TCPPacketGenerator(env, flow, cc, rtt_estimate=c['rtt'])
+        txs, win = [], []
+
+        class Rec:
+            def put(self, p):
+                txs.append(f'tx {p.packet_id} {bits(env.now)}')
+                # the public attributes at the moment of the hand-over (first transmissions: next_seq has not moved yet)
+                win.append((p.packet_id, p.size, snd.next_seq, snd.send_buffer, snd.last_ack, cc.cwnd))
+        snd.out = Rec()
+
+        def script():
+            for gap, fid, ackno, pid, st in c['acks']:
+                yield env.timeout(gap)
+                a = Packet(st, 40, pid, flow_id=fid)
+                a.ack = ackno
+                snd.put(a)
+        env.process(script())
+        try:
+            with quiet():
+                env.run(until=c['until'])
+            tag = 'RET'
+        except BaseException as x:        # noqa - the property says the run never raises
+            tag = f'RAISED {type(x).__name__}'
+        proc = 'F' if not snd.action.is_alive else ('B' if len(snd.cwnd_avaialbe.get_queue) == 1 else 'R')
+        lines = [tag] + txs + [
+            f'attrs nseq={snd.next_seq} buf={snd.send_buffer} lack={snd.last_ack} dup={snd.dupack} srtt={tcpsim.fb(snd.rtt_estimate)} '
+            f'dev={tcpsim.fb(snd.est_deviation)} rto={tcpsim.fb(snd.rto)}',
+            'cc ' + ' '.join(tcpsim.fb(getattr(cc, f, 0)) for f in tcpsim.CC_LINE_FIELDS),
+            'timers ' + ','.join(f'{k}@{tcpsim.fb(t.expire_time)}' for k, t in snd.timers.items()),
+            'sent ' + ','.join(f'{k}@{tcpsim.fb(p.time)}' for k, p in snd.sent_packets.items()),
+            f'tok={len(snd.cwnd_avaialbe.items)} proc={proc}', f'now {bits(env.now)}']
+        return lines, win, cc
+
+    def oracle_k(c, lines, win, cc):
+        if lines[0] != 'RET':
+            return [{'what': f'the run of the sender under the ACK script ended with {lines[0]}', 'signature': 'sndk-raised'}]
+        seen, nxt = set(), 0
+        for pid, size, nseq, buf, lack, cwnd in win:
+            if pid in seen:
+                continue
+            seen.add(pid)
+            if pid != nxt or size != c['mss']:
+                return [{'what': f'new segment {pid} (size {size}) is not the MSS-sized successor of the previous one (expected {nxt})',
+                         'signature': 'sndk-not-consecutive'}]
+            if not (nseq == pid and pid + c['mss'] <= min(buf, lack + cwnd)):
+                return [{'what': f'new segment {pid} sent with next_seq={nseq}, send_buffer={buf}, last_ack={lack}, cwnd={cwnd}: '
+                                 f'outside min(send_buffer, last_ack + cwnd)', 'signature': 'sndk-window'}]
+            nxt = pid + size
+        if not cc.cwnd >= cc.mss:
+            return [{'what': f'cwnd {cc.cwnd} below one MSS ({cc.mss}) at the end', 'signature': 'sndk-cwnd-below-mss'}]
+        return []
+
+    rng = random.Random(f'C16-sndk-{ctx.seed}')
+    cases = replay_cases() if ctx.replay else [gen(rng, i) for i in range(200 if ctx.quick else 3000)]
+    got = {}
+    for c in cases:
+        got[c['cid']] = impl(c)
+    model = model_batch('sndk', ['\n'.join(text(c)) for c in cases], 300) if cases else {}
+    h, nontriv = collections.Counter(), 0
+    dis, orc = res['disagreements'], res['oracle_failures']
+    for c in cases:
+        (a, win, cc), b = got[c['cid']], model.get(c['cid'])
+        if a != b:
+            d = first_diff(a, b)
+            dis.append({'case': c, 'detail': f'sndk line {d[0]}: impl `{d[1][:300]}` model `{d[2][:300]}`',
+                        'impl': a[:300], 'model': (b or [])[:300]})
+        for f in oracle_k(c, a, win, cc):
+            f['case'] = c; f['trace'] = a[:300]
+            orc.append(f)
+        seqs = [w[0] for w in win]
+        retx = len(seqs) - len(set(seqs))
+        h['acks delivered'] += len(c['acks']); h['transmissions'] += len(seqs); h['retransmissions'] += retx
+        h[f"cc:{c['cc']}"] += 1
+        h['runs with all data acknowledged'] += 1 if a[0] == 'RET' and f"lack={c['nseg'] * c['mss']} " in a[len(seqs) + 1] else 0
+        h['runs ending with live timers'] += 1 if not any(l == 'timers ' for l in a) else 0
+        if retx:
+            nontriv += 1
+    res['coverage']['sender_on_kernel_model'] = {
+        'evaluations': len(cases), 'distinct_nontrivial': nontriv, 'lines_compared': sum(len(v[0]) for v in got.values()),
+        'rule': 'ACK scripts (deliveries recorded from real closed loops with drops, perturbed copies of them, random ACK lists) x Reno '
+                '(several MSS / initial windows / ssthresh) and CUBIC, run by the K program at Float (driver mode sndk) and by the real '
+                'TCPPacketGenerator with a real script process under env.run(until=T); non-trivial = at least one retransmission '
+                '(timeout or fast retransmit)', 'histogram': dict(sorted(h.items())),
+        'sample': {k: (v[:6] if k == 'acks' else v) for k, v in cases[0].items()} if cases else None}
+    return None
+# ---- END sndk leg ----
+
+
 def run(ctx):
+    sk = run_sndk(ctx)                       # sndk leg: a replay of one of its cases runs only that leg
+    if sk is not None:
+        return sk
     rng = random.Random(f'C16-{ctx.seed}')
     if ctx.replay:
         cases = load_replay(ctx.replay)
@@ -567,7 +794,9 @@ def run(ctx):
                           'PacketSink.put (the statistics of the base class)', 'TCPPacketGenerator.put (dup-ACK dispatch, timer cancellation)',
                           'TCPPacketGenerator.timeout_callback', 'TCPPacketGenerator.resend_packet', 'TCPPacketGenerator.run (loop)'],
     }
-    return {'coverage': cov, 'disagreements': disagreements, 'oracle_failures': oracle_failures}
+    res = {'coverage': cov, 'disagreements': disagreements, 'oracle_failures': oracle_failures}
+    run_sndk(ctx, res)                       # sndk leg: appends its coverage, disagreements and oracle failures in place
+    return res
 
 
 def hist_retx(sr):
